@@ -613,15 +613,11 @@ func ruleMemoKey(r *Run) {
 			continue
 		}
 		// pattern: v, ok := M[K]; if !ok { ...; M[K] = G(..., cfg) }
-		allInstrs(fn, func(in ssa.Instruction) {
-			mu, ok := in.(*ssa.MapUpdate)
-			if !ok {
-				return
-			}
+		evalMemo := func(ctx *ssa.Function, key, val ssa.Value, pos token.Pos, sameMap func(l *ssa.Lookup) bool) {
 			// same map looked up with the same key in this function
 			var lk *ssa.Lookup
-			allInstrs(fn, func(in2 ssa.Instruction) {
-				if l, ok := in2.(*ssa.Lookup); ok && l.CommaOk && l.Index == mu.Key && pathString(l.X) == pathString(mu.Map) {
+			allInstrs(ctx, func(in2 ssa.Instruction) {
+				if l, ok := in2.(*ssa.Lookup); ok && l.CommaOk && l.Index == key && sameMap(l) {
 					lk = l
 				}
 			})
@@ -630,7 +626,7 @@ func ruleMemoKey(r *Run) {
 			}
 			// the stored value is the result of a module call taking a struct-pointer configuration
 			var gen *ssa.Call
-			for rt := range rootsOf(mu.Value) {
+			for rt := range rootsOf(val) {
 				if c, ok := rt.(*ssa.Call); ok {
 					if cal := staticCallee(c); cal != nil && p.inModule(cal) {
 						gen = c
@@ -655,7 +651,7 @@ func ruleMemoKey(r *Run) {
 				n++
 				inputs := map[string]token.Pos{}
 				fieldsReadThroughParam(p, cal, ai, T, map[string]bool{}, inputs)
-				keyFields := sl.Slice(mu.Key).fieldsReadOf(p, map[string]bool{T.Obj().Name(): true})
+				keyFields := sl.Slice(key).fieldsReadOf(p, map[string]bool{T.Obj().Name(): true})
 				var missing []string
 				for f := range inputs {
 					if !keyFields[T.Obj().Name()+"."+f] {
@@ -668,10 +664,40 @@ func ruleMemoKey(r *Run) {
 					ins = append(ins, f)
 				}
 				sort.Strings(ins)
-				r.Check("memo-key", shortName(fn)+":"+cal.Name(), mu.Pos(), len(missing) == 0,
+				r.Check("memo-key", shortName(ctx)+":"+cal.Name(), pos, len(missing) == 0,
 					fmt.Sprintf("%s memoises %s(%s) under a key built from %v, but the memoised computation also reads %s.%v: two requests that differ only there share one (wrong) definition",
-						shortName(fn), cal.Name(), T.Obj().Name(), keysOf(keyFields), T.Obj().Name(), missing))
+						shortName(ctx), cal.Name(), T.Obj().Name(), keysOf(keyFields), T.Obj().Name(), missing))
 			}
+		}
+		allInstrs(fn, func(in ssa.Instruction) {
+			mu, ok := in.(*ssa.MapUpdate)
+			if !ok {
+				return
+			}
+			kp, keyIsParam := mu.Key.(*ssa.Parameter)
+			vp, valIsParam := mu.Value.(*ssa.Parameter)
+			if keyIsParam && valIsParam && fn.Parent() == nil {
+				// a registering helper (register(key, value)): the look-up and the computation of the
+				// value are at its call sites; the map is identified by its field
+				ch, _ := addrChain(mu.Map)
+				if len(ch) == 0 || ch[len(ch)-1] == nil {
+					return
+				}
+				mapField := ch[len(ch)-1]
+				ki, vi := paramIndex(fn, kp), paramIndex(fn, vp)
+				for _, cs := range staticCallSites(p, fn) {
+					args := cs.Common().Args
+					if ki < 0 || vi < 0 || ki >= len(args) || vi >= len(args) {
+						continue
+					}
+					evalMemo(cs.Parent(), args[ki], args[vi], cs.Pos(), func(l *ssa.Lookup) bool {
+						c2, _ := addrChain(l.X)
+						return len(c2) > 0 && c2[len(c2)-1] == mapField
+					})
+				}
+				return
+			}
+			evalMemo(fn, mu.Key, mu.Value, mu.Pos(), func(l *ssa.Lookup) bool { return pathString(l.X) == pathString(mu.Map) })
 		})
 	}
 	r.Min("memoised_definitions", n, 1)
